@@ -851,7 +851,7 @@ class Session:
         shutil.rmtree(self.root, ignore_errors=True)
 
 
-PREFETCH_OPS = ("prefetch_stale", "getfo_shrunk", "readv_past", "prefetch_read_past")
+PREFETCH_OPS = ("prefetch_stale", "getfo_shrunk", "readv_past", "prefetch_read_past", "prefetch_read")
 BLOB = bytes((11 * k + 5) % 251 for k in range(100000))
 SHRINK = {}
 
@@ -876,8 +876,10 @@ def live_program(rng):
             prog.append(("getfo_shrunk", rng.choice([0, 1, 32768, 70000, 99999])))
         elif r < 0.95:
             prog.append(("readv_past", rng.choice([1, 5000, 200000])))
-        else:
+        elif r < 0.975:
             prog.append(("prefetch_read_past",))
+        else:
+            prog.append(("prefetch_read", rng.choice([None, 1, 3])))
     return prog
 
 
@@ -886,9 +888,26 @@ def _local(sess, name, data):
         fh.write(data)
 
 
-def run_live(sess, prog, name, progress):
+def pause_background_sends(sftp, owner, delay=0.03):
+    """Wrap _send_packet on this client: any thread other than `owner` (the prefetch thread) sleeps right
+    after its request has gone out, so that the owner gets to read the reply first.  Harmless when a
+    request is registered before it is sent."""
+    orig = sftp._send_packet
+
+    def send_packet(t, msg):
+        orig(t, msg)
+        if threading.get_ident() != owner:
+            time.sleep(delay)
+
+    sftp._send_packet = send_packet
+    return lambda: sftp.__dict__.pop("_send_packet", None)
+
+
+def run_live(sess, prog, name, progress, paused=False):
     """Returns True, or a string naming what came out wrong."""
     sftp = sess.sftp
+    if paused:
+        pause_background_sends(sftp, threading.get_ident())
     _local(sess, "other.bin", b"0123456789" * 100)
     _local(sess, "blob.bin", BLOB)
     f = sftp.open(name, "wb", 0)
@@ -938,6 +957,13 @@ def run_live(sess, prog, name, progress):
                 tail = g.read(500)
                 if parts != [BLOB[-100:], b""] or tail != BLOB[-50:]:
                     return "readv_past: wrong data"
+        elif op[0] == "prefetch_read":
+            # ordinary prefetch with another request interleaved while the prefetch thread is still sending
+            with sftp.open("/blob.bin", "rb") as g:
+                g.prefetch(n, op[1])
+                sftp.stat("/other.bin")
+                if g.read() != BLOB:
+                    return "prefetch_read: wrong data"
         else:
             with sftp.open("/blob.bin", "rb") as g:
                 g.prefetch()
@@ -977,27 +1003,39 @@ def live_part(ctx, nprogs, only=None):
                  [("getfo_shrunk", 70000), ("w", 3), ("prefetch_stale", 3, True), ("w", 3), ("readv_past", 5000),
                   ("prefetch_read_past",)]]
         progs += [live_program(rng) for _ in range(nprogs)]
+        # the same kinds of program with the prefetch thread held up after each of its sends
+        progs += [("paused", [("prefetch_read", None), ("w", 2), ("prefetch_read", 2), ("readv_past", 5000),
+                              ("prefetch_stale", 1, True), ("getfo_shrunk", 70000)])]
+        progs += [("paused", live_program(rng)) for _ in range(max(1, nprogs // 2))]
         if only is not None:
             progs = [only]
         for j, prog in enumerate(progs):
-            ctx.count(("live", repr(prog)), kind="live-interleaving" +
-                      ("+prefetch" if any(op[0] in PREFETCH_OPS for op in prog) else ""))
+            paused = len(prog) == 2 and prog[0] == "paused"
+            if paused:
+                prog = prog[1]
+                # a wrapped client is not reused
+                sess.close()
+                sess = Session(ctx.repo)
+            ctx.count(("live", paused, repr(prog)), kind="live-interleaving" +
+                      ("+prefetch" if any(op[0] in PREFETCH_OPS for op in prog) else "") +
+                      ("+paused-prefetch-thread" if paused else ""))
             name = "/live%d.bin" % j
             progress = {}
-            st, v = with_watchdog(lambda: run_live(sess, prog, name, progress), 20.0)
+            st, v = with_watchdog(lambda: run_live(sess, prog, name, progress, paused), 20.0)
             if st == "hang":
                 # the session is wedged: retry once on a new one before believing it
                 sess.close()
                 sess = Session(ctx.repo)
                 progress = {}
-                st, v = with_watchdog(lambda: run_live(sess, prog, name, progress), 20.0)
+                st, v = with_watchdog(lambda: run_live(sess, prog, name, progress, paused), 20.0)
                 if st == "hang":
                     i, op = progress.get("op", (-1, ("?",)))
                     key = BLOCK_KEY if op[0] == "w" else "client-blocks:" + op[0]
                     ctx.fail(key, "operation %d %r of a program interleaving pipelined writes, prefetches and other "
                              "requests on one session never returns (watchdog 20 s, twice) although the server "
                              "answers every request" % (i, op),
-                             case={"live_program": prog, "blocked_at": i, "operation": op}, expected="completes",
+                             case={"live_program": prog, "blocked_at": i, "operation": op,
+                                   "prefetch_thread_paused_after_each_send": paused}, expected="completes",
                              observed="hang")
                     sess.close()
                     sess = Session(ctx.repo)
@@ -1012,6 +1050,9 @@ def live_part(ctx, nprogs, only=None):
                 os.unlink(os.path.join(sess.root, "live%d.bin" % j))
             except OSError:
                 pass
+            if paused:
+                sess.close()
+                sess = Session(ctx.repo)
     finally:
         cls.open = orig_open
         SHRINK.clear()
@@ -1083,7 +1124,8 @@ def replay(ctx, rep):
             ctx.fail(rep["key"], rep["what"], case=case, expected="returns or raises",
                      observed="blocked at operation %d" % k)
     elif case.get("live_program"):
-        live_part(ctx, 0, only=[tuple(op) for op in case["live_program"]])
+        prog = [tuple(op) for op in case["live_program"]]
+        live_part(ctx, 0, only=("paused", prog) if case.get("prefetch_thread_paused_after_each_send") else prog)
         ctx.count(("replay-live", 0))
     else:
         run(ctx)
